@@ -17,6 +17,7 @@ Events delivered to Monitor.step (kind, node, extra):
 """
 
 MAX_TRAIL = 14
+FACTS = None      # set by facts.load(): lets the walker step into private crate-local helpers (see inlinable())
 
 
 class Monitor:
@@ -73,11 +74,47 @@ EMPTY = Flow()
 
 
 class Runner:
-    def __init__(self, monitor, enter_closures=False):
+    def __init__(self, monitor, enter_closures=False, inline=True):
         self.m = monitor
         self.exits = []   # stack of dicts: ('break'|'continue', id) / 'return' -> Flow
         self.enter_closures = enter_closures
         self.max_iter = 40
+        self.inline = inline
+        self._inl = []    # stack of helper defs being walked in place
+        self._sites = []  # the call nodes through which the walker entered them
+        self._pmap = []   # per helper: parameter id -> argument expression at the call site
+        monitor.runner = self
+
+    def site(self):
+        """identifies the calling context of the node being visited (a push inside a helper counts once per call site)"""
+        return tuple(id(x) for x in self._sites)
+
+    def resolve(self, e):
+        """an expression that is a parameter of a helper walked in place stands for the caller's argument"""
+        for _ in range(4):
+            inner = e
+            while inner.get("k") in ("AddrOf", "Cast"):
+                inner = inner["e"]
+            if inner.get("k") == "Path" and inner.get("res") == "local":
+                for pm in reversed(self._pmap):
+                    if inner["id"] in pm:
+                        e = pm[inner["id"]]
+                        break
+                else:
+                    return e
+            else:
+                return e
+        return e
+
+    def inline_target(self, n):
+        """body of the private crate-local helper called by n, if the walker should step into it (a few lines extracted
+        into a helper are still part of the function as far as pairing / ordering rules are concerned)"""
+        if not self.inline or FACTS is None or n.get("k") not in ("Call", "MethodCall"):
+            return None
+        d = n.get("def") or ""
+        if d in self._inl or len(self._inl) >= 2 or not FACTS.inlinable(d):
+            return None
+        return FACTS.bodies.get(d)
 
     # ---- event delivery
     def deliver(self, flow, ev):
@@ -133,6 +170,19 @@ class Runner:
                         f = self.ex(x["e"], f)
             elif isinstance(v, dict):
                 f = self.ex(v, f)
+        callee = self.inline_target(n)
+        if callee is not None and not f.empty():
+            self._inl.append(n.get("def"))
+            self._sites.append(n)
+            actual = ([n["recv"]] if n.get("k") == "MethodCall" else []) + list(n.get("args", []))
+            self._pmap.append({p_["id"]: a_ for p_, a_ in zip(callee.get("params", []), actual) if p_.get("k") == "PBind"})
+            self.exits.append({})
+            out = self.ex(callee["body"], f)
+            frame = self.exits.pop()
+            self._inl.pop()
+            self._sites.pop()
+            self._pmap.pop()
+            f = out.union(frame.pop("return", EMPTY))
         return self.deliver(f, ("node", n))
 
     def x_Block(self, n, f):
@@ -280,7 +330,8 @@ class Runner:
 
     def x_Return(self, n, f):
         f = self.ex(n.get("e"), f)
-        f = self.deliver(f, ("return", n))
+        # a return inside a helper walked in place ends the helper, not the analysed function
+        f = self.deliver(f, ("callee_return" if self._inl else "return", n))
         self.add_exit("return", f)
         return EMPTY
 
